@@ -113,6 +113,9 @@ type input struct {
 	Interval int `json:"interval"`
 	// Selftest: flip one expected value of the first behaviour; a divergence MUST be reported.
 	Selftest bool `json:"selftest"`
+	// SelftestFiles: add a log file nobody wrote to one expected directory listing of the first
+	// behaviour; a divergence MUST be reported.
+	SelftestFiles bool `json:"selftest_files"`
 	// Concurrent: rounds of one writer (append / flush / prune) with readers calling LoadAllEntries for
 	// the writer's whole lifetime; 0 = none.
 	Concurrent int `json:"concurrent"`
@@ -1803,6 +1806,21 @@ func TestWalReplay(t *testing.T) {
 		}
 		if !done {
 			t.Fatal("selftest: no step to corrupt")
+		}
+	}
+	if in.SelftestFiles {
+		b := &in.Behaviours[0]
+		done := false
+		for k := range b.Steps {
+			s := &b.Steps[k]
+			if s.A.Name == "SyncOk" && s.Pc == "idle" && len(s.Files) > 0 {
+				s.Files = append(append([]int{}, s.Files...), 99)
+				done = true
+				break
+			}
+		}
+		if !done {
+			t.Fatal("selftest: no directory listing to corrupt")
 		}
 	}
 	go func() { // watchdog
